@@ -1144,7 +1144,13 @@ func (m *Nitro) LoadFromDisk(dir string, concurr int, callb ItemCallback) (*Snap
 		}
 	}
 
+	oldStore := m.store
 	m.store = b.Assemble(segments...)
+	if m.useMemoryMgmt {
+		// The empty store created with the instance is replaced
+		oldStore.FreeNode(oldStore.HeadNode(), &oldStore.Stats)
+		oldStore.FreeNode(oldStore.TailNode(), &oldStore.Stats)
+	}
 
 	// Delta processing
 	if m.useDeltaFiles {
